@@ -24,6 +24,9 @@ Proof. destruct op; simpl; intros H; try discriminate; vm_compute; reflexivity. 
 Ltac dispatch :=
   unfold proxy_step; cbn [lop_entry];
   repeat match goal with
+         | |- context [list_overridden (if ?b then _ else _)] => is_var b; destruct b
+         end;
+  repeat match goal with
          | |- context [list_overridden ?e] =>
              let b := eval vm_compute in (list_overridden e) in
              change (list_overridden e) with b
@@ -254,6 +257,7 @@ Proof.
     destruct (all_int s || all_str s); cbn [fst]; auto.
     destruct reverse; [apply Forall_rev|]; apply Forall_stable_sort; auto. apply Forall_rev; auto.
   - apply Forall_repeat_list; auto.
+  - destruct it; auto.
 Qed.
 
 Section Invariant.
